@@ -208,6 +208,11 @@ socket_recv_message (NiceSocket *sock, NiceInputMessage *recv_message)
   else
     padlen = 0;
 
+  if (priv->expecting_len + padlen > sizeof (priv->recv_buf)) {
+    /* Frame does not fit in the receive buffer, error in stream */
+    return -1;
+  }
+
   local_recv_buf.buffer = priv->recv_buf.u8 + priv->recv_buf_len;
   local_recv_buf.size = priv->expecting_len + padlen - priv->recv_buf_len;
   local_recv_message.buffers = &local_recv_buf;
